@@ -153,6 +153,12 @@ def _run_calls(scn, tid, impl, conv, parser, orig_parse, captured, hostfns, name
                 ast_spec.append({'name': k, 'tree': tree_to_spec(impl, node, conv, counter, nodeids)})
                 astn[k] = node
             kw['ast_names'] = astn
+        listed = None
+        if scn.get('list_names'):
+            try:
+                listed = [x for x in parser.list_names(c['src']) if isinstance(x, str)]
+            except Exception:
+                listed = None
         captured.clear()
         nvm_before = len(conv.vm)
         TRACER.start(conv, nodeids)
@@ -201,6 +207,8 @@ def _run_calls(scn, tid, impl, conv, parser, orig_parse, captured, hostfns, name
         events_all += evs + [end]
         calls.append({'tree': tree, 'nid': nid, 'max': c['max'] if c.get('max') is not None else 100, 'ast': ast_spec,
                       'src': c['src']})
+        if listed is not None:
+            calls[-1]['listed'] = listed
         if TRACER.overflow:
             break
     case = {'tid': tid, 'calls': calls, 'names0': names0, 'heap0': heap0, 'host': host_spec(host, ret_refs),
